@@ -297,6 +297,21 @@ def evalMany {α : Type} (O : SlotOps α) (lts : List (LT α)) (v : α) : List (
 def outMeta (t outLevel ctLevel ltLevel ctScale ltScale : Nat) : Nat × Nat :=
   (min outLevel (min ctLevel ltLevel), if t = 0 then ctScale * ltScale else ctScale * ltScale % t)
 
+/-- `rlwe.Scale` of the integer scheme: the value and the modulus riding on it (`Mod`; `0` = none, what
+    `rlwe.NewScale(k)` builds; `params.NewScale(k)` and `params.DefaultScale()` attach `t`) -/
+structure ScaleM where
+  value : Nat
+  mod : Nat
+deriving DecidableEq, Repr
+
+/-- `rlwe.Scale.Mul`: the modulus is the RECEIVER's — the product is reduced iff the receiver carries one -/
+def ScaleM.mul (s s1 : ScaleM) : ScaleM :=
+  ⟨if s.mod = 0 then s.value * s1.value else s.value * s1.value % s.mod, s.mod⟩
+
+/-- `*opOut.MetaData = *ctIn.MetaData; opOut.Scale = opOut.Scale.Mul(matrix.Scale)`: the CIPHERTEXT's scale is the
+    receiver, so the output keeps the ciphertext's modulus however the transformation's scale was built -/
+def outScale (ct lt : ScaleM) : ScaleM := ct.mul lt
+
 /-- `EvaluateSequential`: `EvaluateMany(ctIn, lts[:1], {opOut}); Rescale; for i ≥ 1
     { EvaluateMany(opOut, lts[i:i+1], {opOut}); Rescale }` — values only. -/
 def evalSeq {α : Type} (O : SlotOps α) (lts : List (LT α)) (v : α) : EvalRes α :=
